@@ -309,9 +309,19 @@ def run(repo, chk):
         except AnalysisError as e_:
             chk.fail('C02.T4', 'gen_block[LoopBlock]::LoopInfo', str(e_), GEN)
             break
+        body = [i for i, e in enumerate(ev) if is_sub(e, 'self.gen_block', 'block.body')]
+        if rec['push'] == 'attr':
+            # the record is held in one attribute: set before the body, the enclosing loop's record put back after it
+            sets = [i for i, e in enumerate(ev) if e.kind == 'assign' and e.target == rec['attr']]
+            ok = len(sets) == 2 and len(body) == 1 and set(rec['roles']) == {'arrays', 'defeat', 'continue', 'break'} and \
+                sets[0] < body[0] < sets[1] and isinstance(ev[sets[1]].value, ast.Name) and \
+                any(e.kind == 'assign' and e.target == ev[sets[1]].value.id and src(e.value) == rec['attr'] for e in ev[:sets[0]])
+            chk.expect(ok, 'C02.T4', 'gen_block[LoopBlock]::LoopInfo',
+                       'the loop record must hold (stack, continue label, break label, self.effective_defeat) while the body is '
+                       'generated and the enclosing loop\'s record must be put back after it', GEN)
+            continue
         app = [(i, e) for i, e in enumerate(ev) if e.kind == 'call' and e.func == rec['push'] and e.recv is not None and src(e.recv) == 'self.loop_info']
         popc = [(i, e) for i, e in enumerate(ev) if e.kind == 'call' and e.func == rec['pop'] and e.recv is not None and src(e.recv) == 'self.loop_info']
-        body = [i for i, e in enumerate(ev) if is_sub(e, 'self.gen_block', 'block.body')]
         # all four roles recorded, pushed before the body, popped after it, and pushed / popped at the same end
         ok = len(app) == 1 and len(popc) == 1 and len(body) == 1 and set(rec['roles']) == {'arrays', 'defeat', 'continue', 'break'} \
             and (rec['push'], rec['pop']) in (('.append', '.pop'), ('.appendleft', '.popleft'))
